@@ -28,11 +28,20 @@ template <class G> void buildState(G &g, Rng &r, unsigned variant) {
     case 1: n = 1; break;
     case 2: n = 1; break;
     case 3: n = 3; break;
+    case 8: n = 40; break;
+    case 9: n = 24; break;
     default: n = 2 + r.u(5);
     }
     g.resize(n);
     if (variant == 2) g.addEdge(0, 0, LT<L>::make(7));
-    if (variant >= 4) {
+    if (variant == 8) { // a hub with 35+ neighbours
+        for (unsigned t = 0; t < n; ++t)
+            if (t % 8 != 3) g.addEdge(5, t, LT<L>::make(300 + t));
+    } else if (variant == 9) { // dense
+        for (unsigned a = 0; a < n; ++a)
+            for (unsigned b = 0; b < n; ++b)
+                if (r.chance(1, 2)) g.addEdge(a, b, LT<L>::make(400 + a * n + b));
+    } else if (variant >= 4) {
         unsigned m = 1 + r.u(n * 2);
         for (unsigned t = 0; t < m; ++t) {
             VertexIndex i = r.u(n), j = r.chance(1, 6) ? i : r.u(n);
